@@ -273,6 +273,41 @@ def rule_reset(ctx: Ctx) -> int:
     return n
 
 
+
+def rule_cfg_idempotent(ctx: Ctx) -> int:
+    """A store into the configuration made at run time must not depend on what the same entry held before: the
+    configuration object outlives the run (it is the caller's, and it is run again), so a read-modify-write of one of
+    its entries accumulates from run to run."""
+    from ..astx import walk_no_nested as _w
+    from ..defuse import Defs
+    from ..rules_sm import SM, machine_methods
+
+    tree = ctx.tree
+    n = 0
+    for name, fn in sorted(machine_methods(tree).items()):
+        if not (name.endswith("_run") or name in ("run", "run_prepare", "run_exit", "run_multiscale")):
+            continue
+        params = [a.arg for a in fn.args.args]
+        if "cfg" not in params:
+            continue
+        d = Defs(fn)
+        for st in _w(fn):
+            if not isinstance(st, (ast.Assign, ast.AugAssign)):
+                continue
+            for t in st.targets if isinstance(st, ast.Assign) else [st.target]:
+                base = t
+                while isinstance(base, ast.Subscript):
+                    base = base.value
+                if not (isinstance(t, ast.Subscript) and isinstance(base, ast.Name) and base.id == "cfg"):
+                    continue
+                n += 1
+                path = canon(t)
+                val = d.expand(st.value, st, depth=4, stop=("cfg",))
+                reads = [x for x in ast.walk(val) if isinstance(x, (ast.Subscript, ast.Attribute)) and (canon(x) == path or (isinstance(x, ast.Attribute) and x.attr in ("get", "setdefault", "pop") and canon(x.value) == canon(t.value)))]
+                ok = not reads and not isinstance(st, ast.AugAssign)
+                ctx.ob("C18.CFG-IDEMPOTENT", SM, st, f"{name}: `{src(st)[:90]}` overwrites the entry with a value that does not depend on its previous content", ok, expected="an overwrite computed from the step name / constants only", detail=f"the stored value reads `{canon(reads[0])[:80] if reads else path}`, i.e. what an earlier run left in the same configuration entry: products (here a band name) differ between the first and the second run with the same checked configuration")
+    return n
+
 def run(ctx: Ctx) -> None:
     tree = ctx.tree
     n = rule_prange(ctx, "C18.PRANGE")
@@ -289,6 +324,7 @@ def run(ctx: Ctx) -> None:
 
     n = rule_stateless(ctx, "C18.STATELESS", None)
     ctx.floor("C18.STATELESS", n, 100)
+    ctx.floor("C18.CFG-IDEMPOTENT", rule_cfg_idempotent(ctx), 1)
     for key in (
         "pandora/aggregation/cbca.py::CrossBasedCostAggregation.cost_volume_aggregation",
         "pandora/matching_cost/sad_ssd.py::SadSsd.compute_cost_volume",
@@ -336,6 +372,8 @@ SPEC = PropSpec(
 RISK = "pandora/cost_volume_confidence/risk.py"
 AMB = "pandora/cost_volume_confidence/ambiguity.py"
 MUTANTS = [
+    {"id": "indicator-suffix-appended-to-previous", "file": "pandora/state_machine.py", "old": '        cfg["pipeline"][input_step]["indicator"] = ""\n        if len(input_step.split(".")) == 2:\n            cfg["pipeline"][input_step]["indicator"] = "." + input_step.split(".")[1]\n', "new": '        indicator = cfg["pipeline"][input_step].get("indicator", "")\n        if len(input_step.split(".")) == 2:\n            indicator += "." + input_step.split(".")[1]\n        cfg["pipeline"][input_step]["indicator"] = indicator\n'},
+    {"id": "eq-indicator-computed-in-a-local", "kind": "equiv", "file": "pandora/state_machine.py", "old": '        cfg["pipeline"][input_step]["indicator"] = ""\n        if len(input_step.split(".")) == 2:\n            cfg["pipeline"][input_step]["indicator"] = "." + input_step.split(".")[1]\n', "new": '        indicator = ""\n        if len(input_step.split(".")) == 2:\n            indicator = "." + input_step.split(".")[1]\n        cfg["pipeline"][input_step]["indicator"] = indicator\n'},
     {"id": "median-caches-last-result-on-self", "file": "pandora/filter/median.py", "old": "        disp_median = self.median_filter(masked_data)\n", "new": "        disp_median = self.median_filter(masked_data)\n        self._last = disp_median\n"},
     {"id": "ambiguity-row0", "file": AMB, "old": "                    ambiguity[row, col] = etas.shape[0] * nb_disps\n", "new": "                    ambiguity[0, col] = etas.shape[0] * nb_disps\n", "count": 2},
     {"id": "shared-scalar-accumulator", "edits": [(AMB, "        ambiguity = np.zeros((n_row, n_col), dtype=np.float32)\n", "        ambiguity = np.zeros((n_row, n_col), dtype=np.float32)\n        total = 0.0\n", 2), (AMB, "                if np.isnan(normalized_min_cost):\n                    ambiguity[row, col] = etas.shape[0] * nb_disps\n", "                total += normalized_min_cost\n                if np.isnan(normalized_min_cost):\n                    ambiguity[row, col] = etas.shape[0] * nb_disps\n", 2)]},
